@@ -144,7 +144,7 @@ func screenURLs(conf config.Root) bool {
 
 // c15FileExec: FILE PATH. json-decode → ValidateFix → Schema+Migrate → loadTasks → five rounds of one
 // Converge per task with a reorg of block 2 after round two → PruneTask.
-func c15FileExec(confJSON string, chains c15Chains, needles []string) (res c15Res) {
+func c15FileExec(confJSON string, chains c15Chains, needles []string, probe bool) (res c15Res) {
 	defer func() {
 		if r := recover(); r != nil {
 			res.panicked = fmt.Sprint(r)
@@ -161,6 +161,10 @@ func c15FileExec(confJSON string, chains c15Chains, needles []string) (res c15Re
 	}
 	if !screenURLs(conf) {
 		res.outcome = "exit:url-parse"
+		return
+	}
+	if probe {
+		res.outcome = "accepted-param:probe"
 		return
 	}
 	pg, err := migrateOwn(conf)
@@ -342,6 +346,7 @@ type dashReq struct {
 	IG     int               // integration submitted (the others are already stored)
 	Body   string            // integration JSON
 	Form   map[string]string // source form values
+	Probe  bool              // only the handler's verdict is wanted
 	SrcRef string            // dash-src: source name the stored integration a_refd additionally references
 }
 
@@ -410,6 +415,9 @@ func c15DashExec(rq dashReq, chains c15Chains, needles []string) (res c15Res) {
 		}
 		res.httpCode, res.httpBody = rec.Code, strings.TrimSpace(rec.Body.String())
 		stored = len(w.PG.Dump("shovel.integrations"))+len(w.PG.Dump("shovel.sources")) > before
+		if rq.Probe {
+			return
+		}
 		w.V.WaitIdle()
 		for _, hst := range []string{"node1", "node2"} {
 			w.SetChain(hst, chains.reorg[hst], "reorg-"+hst)
